@@ -135,6 +135,21 @@ SEQ_MT = ("list", "list-int", "list-mixed", "tuple", "tuple-int", "f8", "f8-stri
 WTYPES = ("float", "int", "np-f8", "np-f4")
 
 
+def reshare(share, removed):
+    """the links between spectra sharing external arrays after spectrum `removed` has been dropped"""
+    if not share:
+        return None
+    out = {}
+    for k, v in share.items():
+        k = int(k)
+        if k == removed:
+            continue
+        w = {a: (b - 1 if b > removed else b) for a, b in v.items() if b != removed}
+        if w:
+            out[str(k - 1 if k > removed else k)] = w
+    return out or None
+
+
 def exact_of(x):
     """the exact value of a number as it is passed to pewlib"""
     return F(int(x)) if isinstance(x, (int, np.integer)) else F(float(x))
@@ -425,6 +440,13 @@ class C05(Prop):
             if rng.random() < 0.5:
                 t["tic"] = None
             changed = True
+        # 3c. spectra SHARING external arrays: several spectra point at the same m/z offset (stored once) with equal
+        # lengths (the continuous-mode layout) or with different lengths (each pixel records a leading part of the axis),
+        # also shared intensity arrays, in every file order, mostly consecutive in the file; an array is identified by
+        # offset AND length (read_shared_offset).  Extra targets on the peaks beyond the shorter lengths.
+        if len(sp) >= 2 and not offd and not case["shared"] and rng.random() < 0.14:
+            self.share_arrays(rng, case)
+            changed = True
         # 4. stored / absent TIC along the file, in every order
         if len(sp) >= 2 and rng.random() < 0.3:
             n = len(sp)
@@ -462,8 +484,65 @@ class C05(Prop):
         # 6. history on the one object: further extractions (other targets / widths / types), load(), repeats; order
         if rng.random() < 0.55:
             case["extra"] = [self.gen_extra(rng, case) for _ in range(rng.choice([1, 1, 2]))]
+        x = case.pop("_share_extra", None)
+        if x is not None and rng.random() < 0.7:
+            case["extra"] = (case.get("extra") or [])[:1] + [x]
         if rng.random() < 0.4:
             case["order"] = rng.randint(0, 10 ** 6)
+
+    def share_arrays(self, rng, case):
+        sp = case["spectra"]
+        exact = case["kind"] == "exact"
+        b = max(range(len(sp)), key=lambda i: (len(sp[i]["mz"]), rng.random())) if rng.random() < 0.7 else rng.randrange(len(sp))
+        base = sp[b]
+        if not base["mz"]:  # a spectrum without peaks (outside the quantifier) is no axis to share
+            return
+        if len(base["mz"]) < 3 and exact and max(base["it"], default=0) < 2 ** 20:
+            # a longer stored axis, so that leading parts of several lengths exist
+            step = 2.0 ** (math.floor(math.log2(max(base["mz"]))) - 12)   # dyadic, exact in float32 too
+            grid = sorted(set(base["mz"]) | {m + rng.randint(1, 256) * step for m in base["mz"] for _ in range(3)})
+            base["mz"] = grid
+            base["it"] = [float(rng.choice([1, 2, 3, 5, 8, 100, 1000, rng.randint(0, 2047)])) for _ in grid]
+        nb = len(base["mz"])
+        others = [i for i in range(len(sp)) if i != b]
+        group = rng.sample(others, rng.randint(1, min(len(others), 4)))
+        links = {}
+        for i in group:
+            what = rng.choice(["mz", "mz", "mz", "both", "it"])
+            k = nb if rng.random() < 0.35 else rng.randint(1, nb)
+            t = sp[i]
+            if what in ("mz", "both"):
+                t["mz"] = list(base["mz"][:k])
+                if what == "both":
+                    t["it"] = list(base["it"][:k])
+                elif exact:
+                    t["it"] = [float(rng.choice([1, 2, 3, 5, 8, 100, 1000, rng.randint(0, 2047)])) for _ in range(k)]
+                else:
+                    t["it"] = [float(np.float32(rng.uniform(0.5, 5000.0))) for _ in range(k)]
+                links[str(i)] = {"mz": b, "it": b} if what == "both" else {"mz": b}
+            else:  # the intensities alone: the leading part of the base's, on the spectrum's own (shortened) axis
+                k = min(len(t["mz"]), nb)
+                t["mz"], t["it"] = list(t["mz"][:k]), list(base["it"][:k])
+                links[str(i)] = {"it": b}
+        # file order: the group next to its base, the base first, last or in between (consecutive in the dict)
+        if rng.random() < 0.8:
+            members = [sp[i] for i in group]
+            rng.shuffle(members)
+            at = rng.randint(0, len(members))
+            block = members[:at] + [base] + members[at:]
+            rest = [t for j, t in enumerate(sp) if j != b and j not in group]
+            cut = rng.randint(0, len(rest))
+            new = rest[:cut] + block + rest[cut:]
+            ident = {id(t): j for j, t in enumerate(new)}
+            links = {str(ident[id(sp[int(i)])]): {w: ident[id(base)] for w in v} for i, v in links.items()}
+            sp[:] = new
+        case["share"] = links
+        # targets on the peaks of the stored axis, the last ones first (beyond the shorter leading parts)
+        tail = list(base["mz"][max(0, nb - 3):]) + rng.sample(base["mz"], min(nb, 2))
+        w = {"kind": "mz", "value": rng.choice([0.0078125, 0.125, 1.0])} if exact and rng.random() < 0.7 else dict(case["width"])
+        x = {"op": "extract", "masses": [m for m in tail if m > 0] or list(case["masses"]), "width": w}
+        x["targ"] = self.pick_targ(rng, x["masses"], w)
+        case["_share_extra"] = x
 
     def pick_targ(self, rng, masses, width, scalar=None):
         integral = all(float(m).is_integer() and 0 < abs(m) < 2 ** 31 for m in masses)
@@ -561,7 +640,7 @@ class C05(Prop):
         import random
         prng = random.Random(case["pad"]) if case["pad"] is not None else None
         ibd, metas = gen_imzml.layout_ibd(case["spectra"], case["mzdt"], case["itdt"], shared=case["shared"], rng=prng,
-                                          intensity_first=case["ifirst"])
+                                          intensity_first=case["ifirst"], links=case.get("share"))
         L = len(ibd)
         out = []
         for _ in range(rng.choice([1, 1, 2, 3])):
@@ -899,6 +978,17 @@ class C05(Prop):
         for order in (None, 1, 2, 3):
             yield {**base, "spectra": [tri, {**tri, "x": 2, "tic": "7.5"}], "size": [2, 1], "masses": [99.5], "binw": 0.5,
                    "width": {"kind": "ppm", "value": 15625.0}, "extra": hist, "order": order}
+        # spectra sharing external arrays: one stored axis of 8 points, pixels recording leading parts of it
+        ax = [100.0 + k for k in range(8)]
+        for lens in ([1, 3, 5, 8, 8], [8, 8, 5, 3, 1], [3, 8, 1, 8, 5], [8, 8, 8, 8, 8]):
+            b = lens.index(8)
+            sps = [{**sp, "x": k + 1, "mz": ax[:n], "it": [float(2 ** (k + j)) for j in range(n)], "tic": None} for k, n in enumerate(lens)]
+            yield {**base, "size": [5, 1], "spectra": sps, "masses": [104.0, 100.0, 107.0, 102.0], "width": {"kind": "mz", "value": 1.0},
+                   "share": {str(k): {"mz": b} for k in range(5) if k != b}}
+        sps = [{**sp, "x": 1, "mz": ax[:4], "it": [1.0, 2.0, 4.0, 8.0]}, {**sp, "x": 2, "mz": ax[:2], "it": [1.0, 2.0]},
+               {**sp, "x": 3, "mz": [99.0, 101.5, 103.0], "it": [1.0, 2.0, 4.0]}]
+        yield {**base, "size": [3, 1], "spectra": sps, "masses": [101.0, 103.0], "width": {"kind": "mz", "value": 1.0},
+               "share": {"1": {"mz": 0, "it": 0}, "2": {"it": 0}}}
         # 1xN and Nx1 images with the first / last pixel missing, a single recorded pixel
         for size, pos in (([7, 1], [(2, 1), (7, 1), (4, 1)]), ([1, 9], [(1, 1), (1, 8)]), ([5, 6], [(3, 4)]), (None, [(1, 12), (1, 3)])):
             yield {**base, "size": size, "spectra": [{**tri, "x": x, "y": y} for (x, y) in pos], "masses": [100.0], "width": w2}
@@ -1029,7 +1119,7 @@ class C05(Prop):
         specs = case["spectra"]
         prng = random.Random(case["pad"]) if case["pad"] is not None else None
         ibd, metas = gen_imzml.layout_ibd(specs, case["mzdt"], case["itdt"], shared=case["shared"], rng=prng,
-                                          intensity_first=case["ifirst"])
+                                          intensity_first=case["ifirst"], links=case.get("share"))
         doc = gen_imzml.simple_doc([(s["x"], s["y"]) for s in specs], [s["tic"] for s in specs], metas,
                                    size=case["size"], mzdt=case["mzdt"], itdt=case["itdt"], style=case["style"])
         path = gen_imzml.write_pair(d, doc, ibd)
@@ -1269,6 +1359,7 @@ class C05(Prop):
         if bnotes:
             note["binned"] = bnotes
         brep_f = next((o.get("brep") for o in obs.values() if o.get("brep") is not None), None)
+        case = {**case, "_refs": [{"mz": list(m["mz"][:2]), "it": list(m["it"][:2])} for m in metas]}
         feats = self.features(case, rep, brep_f, dspecs, hyp, reads is not None,
                               any("dict" in (o["impl"] or {}) for o in obs.values() if o["ok"]), ext, calls, dvals)
         if fast_unjudged and feats:
@@ -1453,6 +1544,27 @@ class C05(Prop):
             nontriv.add("tic-mixed:absent-then-stored")
         if len(changes) >= 2:
             nontriv.add("tic-mixed:alternating")
+        # ---- spectra sharing external arrays (offsets / lengths as the model read them: rep["refs"] is what was written)
+        refs = case.get("_refs") or []
+        order = list(range(len(refs)))
+        for which in ("mz", "it"):
+            for a, b in zip(order, order[1:]):
+                ra, rb = refs[a][which], refs[b][which]
+                if ra[0] == rb[0] and ra[1] > 0 and rb[1] > 0:
+                    if ra[1] == rb[1]:
+                        f.add(f"shared-{which}-offset:equal-lengths")
+                    else:
+                        nontriv.add(f"shared-{which}-offset:{'shorter' if ra[1] < rb[1] else 'longer'}-first")
+        if any(refs[a]["mz"][0] == refs[b]["mz"][0] and refs[a]["mz"][1] != refs[b]["mz"][1] for a, b in zip(order, order[1:])):
+            for a, b in zip(order, order[1:]):
+                if refs[a]["mz"][0] != refs[b]["mz"][0] or refs[a]["mz"][1] == refs[b]["mz"][1] or a >= len(dvals) or b >= len(dvals):
+                    continue
+                short, long_ = (a, b) if refs[a]["mz"][1] < refs[b]["mz"][1] else (b, a)
+                beyond = dvals[long_][0][len(dvals[short][0]):]
+                for e in ext.values():
+                    edges = [core.unrat(q) for q in e["rep"]["edges"]]
+                    if any(lo <= m < hi for m in beyond for lo, hi in zip(edges[::2], edges[1::2])):
+                        nontriv.add("shared-mz-offset:window-holds-a-peak-beyond-the-shorter-length")
         # ---- pixel coverage
         if hyp and X and Y and specs:
             pos = {(s["x"], s["y"]) for s in specs}
@@ -1636,9 +1748,14 @@ class C05(Prop):
             yield {**case, "targ": None}
         if case.get("api"):
             yield {**case, "api": None}
+        if case.get("share"):
+            yield {**case, "share": None}
+            for k in list(case["share"]):
+                if len(case["share"]) > 1:
+                    yield {**case, "share": {a: v for a, v in case["share"].items() if a != k}}
         for i in range(len(sp)):
             if len(sp) > 1:
-                yield {**case, "spectra": sp[:i] + sp[i + 1:], "shared": False}
+                yield {**case, "spectra": sp[:i] + sp[i + 1:], "shared": False, "share": reshare(case.get("share"), i)}
         if len(case["masses"]) > 1:
             for i in range(len(case["masses"])):
                 yield {**case, "masses": case["masses"][:i] + case["masses"][i + 1:], "scalar": False}
